@@ -5,3 +5,4 @@
 -/
 import GeoProofs.Props.C02Jordan
 import GeoProofs.Props.C02Exact
+import GeoProofs.Props.C02Convex
